@@ -19,6 +19,8 @@ import DimModel.Lib.Heap
 import DimModel.Lib.DatasetOps
 import DimModel.Lib.DatasetInterp
 import DimModel.Lib.InterpLike
+import DimModel.Driver.ExtRed
+import DimModel.Driver.ExtC14Ops
 open Lean
 namespace DimModel.Driver
 open DimModel.Codec
@@ -503,8 +505,9 @@ def handle (op : String) (req : Json) : P (List (String × Json)) := do
       | "copy" => DSV.copyDs Cell.nan ds
       | "reindex_like" => DSV.reindexLikeDs Cell.fill ds tmpl
       | "interp_like" => DSV.interpLikeDs (fun a b w => Cell.lin a b w) ds tmpl Cell.fill Cell.fill2
-      | _ => .error .other
+      | _ => match dsOpExt fn req with | .ok (some g) => g ds others | _ => .error .other
     pure [("lib", encExcept encDs r)]
+  | "redx" => handleRedX req
   | _ => throw s!"unknown op {op}"
 
 def answer (line : String) : String :=
